@@ -132,6 +132,23 @@ pub fn run_c13(ctx: &Ctx, index: u64, cov: &mut Cov) -> Option<Violation> {
     if !(b == a.arena) || !b.is_empty() || b.count() != 0 {
         return v(ctx, "with_capacity-observable", format!("with_capacity({}) is not equal to a new arena", capn), &workload, 0, &[]);
     }
+    // clear() keeps the capacity also when there is nothing to drop (cleared before first use, twice, after reserve)
+    {
+        let mut e: Arena<Plain> = Arena::with_capacity(capn.min(5000) + 1);
+        let c0 = e.capacity();
+        e.clear();
+        if e.capacity() != c0 {
+            return v(ctx, "clear-capacity-unused", format!("clear() of a never used arena changed capacity() {} -> {}", c0, e.capacity()), &workload, 0, &[]);
+        }
+        let k = rng.below(50) + 1;
+        e.reserve(c0 + k);
+        let c1 = e.capacity();
+        e.clear();
+        e.clear();
+        if e.capacity() != c1 || c1 < c0 + k {
+            return v(ctx, "clear-capacity-after-reserve", format!("reserve({}) + clear() twice on an empty arena: capacity() {} -> {}", c0 + k, c1, e.capacity()), &workload, 0, &[]);
+        }
+    }
     let mut guaranteed_b = capn;
     let mut guaranteed_a = 0usize;
     let len = rng.range(10, 70);
@@ -347,6 +364,10 @@ pub fn run_c13(ctx: &Ctx, index: u64, cov: &mut Cov) -> Option<Violation> {
     if a.arena.capacity() != cap {
         return v(ctx, "clear-capacity", format!("clear() changed capacity() {} -> {}", cap, a.arena.capacity()), &workload, ops.len(), &ops);
     }
+    a.arena.clear();
+    if a.arena.capacity() != cap || !a.arena.is_empty() {
+        return v(ctx, "clear-twice-capacity", format!("a second clear() changed capacity() {} -> {}", cap, a.arena.capacity()), &workload, ops.len(), &ops);
+    }
     if a.arena != Arena::new() {
         return v(ctx, "clear-not-equal-new", "a cleared arena does not compare equal to a new one".into(), &workload, ops.len(), &ops);
     }
@@ -423,12 +444,19 @@ impl<P: Payload + serde::Serialize + serde::de::DeserializeOwned> Hook<P> for Se
         if !self.shadows.is_empty() {
             cov.evaluations += 1;
         }
-        if self.shadows.len() < 4 && rng.chance(1, 10) {
-            for fmt in ["json", "positional"] {
+        if self.shadows.len() < 8 && rng.chance(1, 10) {
+            for fmt in ["json", "json-reader", "json-value", "positional"] {
                 let r = guarded(|| -> Result<Arena<P>, String> {
                     if fmt == "json" {
                         let s = serde_json::to_string(&st.arena).map_err(|e| format!("serialize: {}", e))?;
                         serde_json::from_str(&s).map_err(|e| format!("deserialize: {} in {}", e, s))
+                    } else if fmt == "json-reader" {
+                        // a deserializer that hands out owned (not borrowed) strings
+                        let s = serde_json::to_vec_pretty(&st.arena).map_err(|e| format!("serialize: {}", e))?;
+                        serde_json::from_reader(std::io::Cursor::new(s)).map_err(|e| format!("deserialize from a reader: {}", e))
+                    } else if fmt == "json-value" {
+                        let v = serde_json::to_value(&st.arena).map_err(|e| format!("serialize to a value: {}", e))?;
+                        serde_json::from_value(v).map_err(|e| format!("deserialize from a value: {}", e))
                     } else {
                         let bytes = crate::posfmt::to_bytes(&st.arena).map_err(|e| format!("serialize: {}", e))?;
                         crate::posfmt::from_bytes(&bytes).map_err(|e| format!("deserialize: {}", e))
@@ -474,7 +502,7 @@ impl<P: Payload + serde::Serialize + serde::de::DeserializeOwned> Hook<P> for Se
                         return out;
                     }
                 }
-                cov.bump(&format!("round_trips_{}", fmt));
+                cov.bump(&format!("round_trips_{}", fmt.replace('-', "_")));
                 cov.evaluations += 1;
                 cov.observations += st.model.nodes.len() as u64;
                 if !st.model.avail.is_empty() {
@@ -577,7 +605,31 @@ impl BatteryHook {
     }
 }
 
+impl BatteryHook {
+    /// observations that are the same in every correct build: does an unsatisfiable reserve return?
+    fn observe_end<P: Payload>(&mut self, st: &State<P>) {
+        for k in [usize::MAX, usize::MAX / 2, (isize::MAX as usize) / 8] {
+            let mut c = st.arena.clone();
+            let r = guarded(|| c.reserve(k));
+            self.d.u(r.is_ok() as u64);
+            self.d.u((c.capacity() >= c.count().saturating_add(k)) as u64);
+            self.d.u((c == st.arena) as u64);
+        }
+        let mut c = st.arena.clone();
+        let cap = c.capacity();
+        c.clear();
+        self.d.u((c.capacity() == cap) as u64);
+        self.d.u(c.count() as u64);
+        self.observations += 5;
+    }
+}
+
 impl<P: Payload + std::fmt::Display + Sync> Hook<P> for BatteryHook {
+    fn at_end(&mut self, _ctx: &Ctx, st: &mut State<P>, _rng: &mut Rng, cov: &mut Cov) -> Vec<Finding> {
+        self.observe_end(st);
+        cov.observations += 5;
+        Vec::new()
+    }
     fn after_step(&mut self, _ctx: &Ctx, st: &mut State<P>, info: &StepInfo<P>, _heavy: bool, _rng: &mut Rng, cov: &mut Cov) -> Vec<Finding> {
         let before = self.observations;
         let r = guarded(|| self.observe(st, info));
